@@ -88,11 +88,90 @@ def run_specs(stream, specs, ctx, per_class, r):
             stream.disagree(case, got[:400], ml[:400])
 
 
+def av_wire(v):
+    def leaf(x):
+        return "n" if x is None else "t" + codecio.cps(str(x))
+    if isinstance(v, list):
+        if v and all(isinstance(x, list) for x in v):
+            return "r(" + ";".join(",".join(leaf(y) for y in x) for x in v) + ")"
+        if not v:
+            return "r()"
+        return "c(" + ",".join(leaf(x) for x in v) + ")"
+    return leaf(v)
+
+
+def run_to_astm(stream, specs, ctx, per_class, r):
+    """`to_astm()` gives the stored values back in wire order, and building a record from that list again gives the
+    same dictionary (what was stored reads back to itself)"""
+    lines, pend = [], []
+    for module, letter, spec in specs:
+        cls = schemaio.real_class(module, letter)
+        if cls is None:
+            continue
+        for _ in range(per_class):
+            raw, planted = schemaio.gen_record(r, spec, fill=r.choice([0.3, 0.6, 0.9]))
+            from senaite.astm import codec
+            rec = codec.decode_record(raw)
+            try:
+                obj = cls(*rec)
+                d = obj.to_dict()
+            except Exception:
+                continue           # reported by the conformant-records stream
+            case = {"module": module, "letter": letter, "record": hexb(raw)}
+            stream.case(case, nontrivial=any(p[0] in ("comp", "rep") for p in planted))
+            try:
+                av = obj.to_astm()
+            except Exception as e:  # noqa
+                stream.fail(dict(case, error=type(e).__name__), "to_astm() raises for a record that renders as a dictionary",
+                            "%s/to_astm-raises" % stream.name)
+                continue
+            flat = []
+            for (name, _f), v in zip(cls._fields, av):
+                dv = d[name]
+                if isinstance(dv, dict):
+                    exp = list(dv.values())
+                elif isinstance(dv, list):
+                    exp = [list(x.values()) for x in dv]
+                else:
+                    exp = dv
+                if v != exp:
+                    stream.fail(dict(case, field=name, to_astm=repr(v)[:200], to_dict=repr(dv)[:200]),
+                                "to_astm() and to_dict() disagree on field %s" % name, "%s/to_astm-vs-to_dict" % stream.name)
+                    break
+            again = None
+            try:
+                again = cls(*av).to_dict()
+            except Exception as e:  # noqa
+                again = "ERR " + type(e).__name__
+            jsonlist = any((f.get("scalar") or {}).get("kind") == "jsonList" for f in spec["fields"])
+            same = again == d
+            if not same and not jsonlist:
+                stream.fail(dict(case, first=repr(d)[:300], again=repr(again)[:300]),
+                            "building the record again from its own to_astm() list gives a different dictionary",
+                            "%s/reread" % stream.name)
+            now = d.get("timestamp") if isinstance(d.get("timestamp"), str) else "0"
+            lines.append("toastm %s %s %s %s" % (module, letter, codecio.cps(now or "0") or "", codecio.record_wire(rec)))
+            pend.append((case, "ok " + "|".join(av_wire(v) for v in av) + " ## " +
+                         ("same" if same else ("err" if isinstance(again, str) else "differs"))))
+    model = common.drive(lines) if ctx.driver_ok else [None] * len(lines)
+    for (case, got), ml in zip(pend, model):
+        if ml is not None:
+            m2 = ml if not ml.endswith(tuple("## err " + x for x in ())) else ml
+            head, _, tail = ml.partition(" ## ")
+            canon = head + " ## " + ("err" if tail.startswith("err") else tail)
+            if canon != got:
+                stream.disagree(case, got[:400], ml[:400])
+
+
 def run(ctx):
     r = ctx.rng("C12")
     s = Stream("conformant-records")
     run_specs(s, schemaio.record_specs(), ctx, 400 if ctx.thorough else 30, r)
-    return [s]
+    t = Stream("to_astm-and-reread")
+    run_to_astm(t, schemaio.record_specs(), ctx, 200 if ctx.thorough else 12, r)
+    # the mapping of a class must not depend on which classes the process used before (fresh interpreters, both orders)
+    from harness.props import C20
+    return [s, t, C20.order_stream(ctx)]
 
 
 def search(ctx, disagreements):
